@@ -39,8 +39,14 @@ fn all_params(net: &Network) -> V1 {
 }
 
 pub fn learn_case(name: &'static str, input: Shape, layers: Vec<L>, nout: usize, n: usize, batch: usize) -> Case {
+    learn_case_mode(name, input, layers, nout, n, batch, "explore")
+}
+
+/// `mode` = "explore": every schedule of the stage; "reversed": the single schedule that runs the closures in reverse
+/// order and reduces right-to-left (used for batches too large to enumerate: 8! orders)
+pub fn learn_case_mode(name: &'static str, input: Shape, layers: Vec<L>, nout: usize, n: usize, batch: usize, mode: &'static str) -> Case {
     Case {
-        id: format!("C05/learn/{}/N{}-B{}", name, n, batch),
+        id: format!("C05/learn/{}/N{}-B{}{}", name, n, batch, if mode == "explore" { "" } else { "/reversed-schedule" }),
         property: "C05",
         family: "Network::learn (parallel batch)",
         class: "learn".into(),
@@ -61,7 +67,7 @@ pub fn learn_case(name: &'static str, input: Shape, layers: Vec<L>, nout: usize,
             ctx.schedule("sequential");
             let a = run(ctx, 1);
             let again = run(ctx, 1);
-            ctx.schedule("explore");
+            ctx.schedule(mode);
             let b = run(ctx, 8);
             ctx.schedule("sequential");
             let same = |ctx: &mut Ctx, role: &str, x: &V1, y: &V1| {
@@ -158,6 +164,9 @@ pub fn cases(tier: Tier, _seed: u64) -> Vec<Case> {
     out.push(learn_case("conv-pool-dense", Shape::Triple(1, 2, 2), vec![L::Conv(1, (2, 2), (1, 1), (1, 1), (1, 1), Linear), L::Pool((1, 1), (1, 1)), L::Dense(1, Linear, true)], 1, 3, 2));
     out.push(learn_case("deconv-dense", Shape::Triple(1, 1, 2), vec![L::Deconv(1, (1, 2), (1, 1), (0, 0), Linear), L::Dense(1, Linear, false)], 1, 2, 2));
     out.push(learn_case("feedback-dense", Shape::Single(2), vec![L::Feedback(vec![L::Dense(2, Linear, true)], 2, false, false, Acc::Mean), L::Dense(1, Linear, true)], 1, 3, 3));
+    // a batch of 8 samples: one alternative schedule (reverse order, right-to-left reduction)
+    out.push(learn_case_mode("dense-dense", Shape::Single(2), vec![L::Dense(2, Tanh, true), L::Dense(1, Linear, true)], 1, 8, 8, "reversed"));
+    out.push(learn_case_mode("conv-pool-dense", Shape::Triple(1, 2, 2), vec![L::Conv(1, (2, 2), (1, 1), (1, 1), (1, 1), Linear), L::Pool((1, 1), (1, 1)), L::Dense(1, Linear, true)], 1, 12, 6, "reversed"));
     if full {
         out.push(learn_case("dense-dense", Shape::Single(2), vec![L::Dense(2, Tanh, true), L::Dense(1, Linear, true)], 1, 5, 3));
         out.push(learn_case("conv-conv-dense", Shape::Triple(1, 3, 3), vec![L::Conv(1, (2, 2), (1, 1), (0, 0), (1, 1), Linear), L::Conv(1, (2, 2), (1, 1), (0, 0), (1, 1), Sigmoid), L::Dense(2, Linear, true)], 2, 3, 3));
